@@ -23,6 +23,27 @@ def walk : List Bool → Nat → List Nat → List Nat → List Nat × List Nat 
     if (i :: sel).length + 1 ≥ maxTxLen then ((i :: sel).reverse, ev.reverse, i + 1)   -- full: the walk stops here
     else walk vs (i + 1) (i :: sel) ev
 
+/-- what the handler meets at one mempool entry: the transaction passes the proposal-time verification, or it fails and
+    the removal from the mempool succeeds / answers `ErrTxNotFound` (tolerated) / answers another error (the handler gives
+    up with that error: no proposal) -/
+inductive Verdict where
+  | pass | evict | notFound | removeErr
+  deriving DecidableEq, Repr, Inhabited
+
+def Verdict.isPass : Verdict → Bool
+  | .pass => true
+  | _ => false
+
+/-- the walk with the removal outcomes: (selected, removed, looked at), or the removal error -/
+def walkV : List Verdict → Nat → List Nat → List Nat → Outcome (List Nat × List Nat × Nat)
+  | [], i, sel, ev => .ok (sel.reverse, ev.reverse, i)
+  | .evict :: vs, i, sel, ev => walkV vs (i + 1) sel (i :: ev)
+  | .notFound :: vs, i, sel, ev => walkV vs (i + 1) sel ev
+  | .removeErr :: _, _, _, _ => .err "mempool-remove"
+  | .pass :: vs, i, sel, ev =>
+    if (i :: sel).length + 1 ≥ maxTxLen then .ok ((i :: sel).reverse, ev.reverse, i + 1)
+    else walkV vs (i + 1) (i :: sel) ev
+
 def select (verdicts : List Bool) : List Nat := (walk verdicts 0 [] []).1
 def evicted (verdicts : List Bool) : List Nat := (walk verdicts 0 [] []).2.1
 
